@@ -189,6 +189,53 @@ theorem C04_lax_accepts_unsorted (k : SetK) (t : Ty) (bs : Bytes) (vs : List Val
     deserialize false (.set k t) bs = .ok (.list (collectSet vs), r) := by
   simp [deserialize, de, hz, hd]
 
+/-- **Without strict ordering a set is read exactly as the sequence of its elements, then
+collected**: same acceptance, same bytes consumed, same rest — for every element type, reader and
+input.  So the only inputs accepted beyond the canonical ones are sequence encodings with unsorted
+or repeated entries, and whatever follows them is left alone. -/
+theorem C04_lax_set_is_collected_sequence {σ : Type} (rd : Rd σ) (k : SetK) (t : Ty) (s : σ) :
+    de rd false (.set k t) s =
+      (de rd false (.seq .vec t) s).bind fun r =>
+        match r.1 with
+        | .list vs => .ok (.list (collectSet vs), r.2)
+        | v => .ok (v, r.2) := by
+  simp only [de]
+  cases hz : memZero t
+  · simp only [Bool.false_eq_true, if_false, Bool.false_and]
+    cases deVec rd t.isU8 (de rd false t) s with
+    | ok r => simp [Out.bind, Out.map]
+    | err e => simp [Out.bind, Out.map]
+    | panic p => simp [Out.bind, Out.map]
+  · simp [Out.bind]
+
+/-- a map entry is read as the pair `(K, V)` -/
+theorem deEntry_eq_tuple {σ : Type} (rd : Rd σ) (st : Bool) (a b : Ty) (s : σ) :
+    deEntry (de rd st a) (de rd st b) s = de rd st (Ty.tuple [a, b]) s := by
+  simp only [Ty.tuple, List.map, de, deFields, deEntry, ProdK.init, Bool.false_eq_true, if_false]
+  cases de rd st a s with
+  | ok x =>
+    simp only [Out.bind, Out.map]
+    cases de rd st b x.2 with
+    | ok y => simp [Out.bind, Out.map]
+    | err e => simp [Out.bind, Out.map]
+    | panic p => simp [Out.bind, Out.map]
+  | err e => simp [Out.bind, Out.map]
+  | panic p => simp [Out.bind, Out.map]
+
+/-- … and a hash or ordered map exactly as the sequence of its `(K, V)` pairs, then collected (the
+last value of a repeated key wins) -/
+theorem C04_lax_map_is_collected_sequence {σ : Type} (rd : Rd σ) (k : MapK) (a b : Ty) (s : σ)
+    (hk : k ≠ .indexMap) (hz : memZero a = false) :
+    de rd false (.map k a b) s =
+      (deVec rd false (de rd false (Ty.tuple [a, b])) s).bind fun r =>
+        .ok (.list (collectMap r.1), r.2) := by
+  have he : deEntry (de rd false a) (de rd false b) = de rd false (Ty.tuple [a, b]) :=
+    funext fun s => deEntry_eq_tuple rd false a b s
+  cases k with
+  | indexMap => exact absurd rfl hk
+  | hashMap => simp only [de, hz, Bool.false_eq_true, if_false, he, Bool.false_and]
+  | btreeMap => simp only [de, hz, Bool.false_eq_true, if_false, he, Bool.false_and]
+
 /-- Finding F6, proved of the model and replayed on the real code: index collections have no
 order or duplicate check in any mode, so in strict mode an accepted string need not re-encode
 to itself. -/
